@@ -27,11 +27,13 @@ import (
 
 type c14Break struct {
 	After   int    `json:"after"`    // break once this many complete messages have been received in total
-	Kind    string `json:"kind"`     // close | rst
+	Kind    string `json:"kind"`     // close | rst | stall | slow
 	DownMS  int    `json:"down_ms"`  // the sink stops listening for this long (0 = keeps listening)
 	PauseMS int    `json:"pause_ms"` // feeder pause after handing over message number After (lets the break happen between messages)
 	// StallMS > 0 (kind "stall"): the sink stops reading for this long, so that the producer blocks in the
 	// middle of a large message, then resets the connection
+	// kind "slow": the sink stops reading for StallMS and then simply goes on reading (no close, no reset) while
+	// the feeder keeps the producer's queue full: nothing may be lost, doubled or reordered
 	StallMS int `json:"stall_ms,omitempty"`
 }
 
@@ -46,7 +48,7 @@ type c14Case struct {
 }
 
 const c14Rule = "case = raw-socket producer configuration (tcp | udp, retry-max 0..4) + 1..300 messages (1 octet..48 KiB; JSON-like text rich in %d %s %% %! verbs, quotes, UTF-8 and arbitrary non-newline octets, each tagged with its index) " +
-	"+ fault plan (tcp): none, or 1..3 breaks (after message i the sink closes gracefully | resets the connection, optionally stops listening for a drawn downtime), or a stall plan (the sink stops reading while 30..60 messages of 48 KiB follow, so that a write blocks half-way, then resets); with a fault plan the producer may have been up and idle for 0.4..5.5 s (thorough: ..31 s) before traffic starts; the real producer.NewProducer(\"rawSocket\").Run() writes to a sink owned by the harness; " +
+	"+ fault plan (tcp): none, or 1..3 breaks (after message i the sink closes gracefully | resets the connection, optionally stops listening for a drawn downtime), or a stall plan (the sink stops reading while 30..60 messages of 48 KiB follow, so that a write blocks half-way, then resets), or a slow-sink plan (the sink stops reading for 0.3..5.5 s (thorough: ..31 s) and then goes on, while 1200..2500 messages keep the producer's queue full: the no-fault oracle applies); with a fault plan the producer may have been up and idle for 0.4..5.5 s (thorough: ..31 s) before traffic starts; the real producer.NewProducer(\"rawSocket\").Run() writes to a sink owned by the harness; " +
 	"oracle without fault = the sink's byte stream is exactly concat(message + newline) (udp: one datagram per message, paced); with faults (every break index is a fault point) = the complete lines received over all connections are " +
 	"byte-identical input messages with strictly increasing indices (no duplicate, no corruption, no reordering), and once the sink is reachable again probe messages handed over one at a time resume delivery within retry-max+4 probes with nothing missing afterwards; " +
 	"non-trivial = a message contains '%' or is >= 4 KiB, or the plan has a break; distinct by hash"
@@ -96,6 +98,20 @@ func genC14(t *rapid.T) c14Case {
 		}
 		total += len(p)
 		c.Msgs = append(c.Msgs, p)
+	}
+	if c.Protocol == "tcp" && rapid.IntRange(0, 11).Draw(t, "slowplan") == 0 {
+		// a slow sink: it stops reading for a while, then goes on; enough messages to keep the queue (1000 slots) full
+		c.Msgs = nil
+		nm := rapid.IntRange(1200, 2500).Draw(t, "nslow")
+		for i := 0; i < nm; i++ {
+			c.Msgs = append(c.Msgs, []byte(rapid.SampledFrom(c14Snippets).Draw(t, "slowsnip")+"slow-sink-filler-0123456789"))
+		}
+		stalls := []int{300, 1200, 5500}
+		if os.Getenv("VERIF_TIER") == "thorough" {
+			stalls = append(stalls, 300, 1200, 5500, 11000, 31000)
+		}
+		c.Breaks = []c14Break{{After: rapid.IntRange(1, 40).Draw(t, "slowafter"), Kind: "slow", StallMS: rapid.SampledFrom(stalls).Draw(t, "slowms")}}
+		return c
 	}
 	if c.Protocol == "tcp" && rapid.IntRange(0, 7).Draw(t, "stallplan") == 0 {
 		// a sink that stops reading: enough large messages follow the break to fill the socket buffers
@@ -164,7 +180,7 @@ func (s *c14Sink) listen() error {
 	var err error
 	lc := net.ListenConfig{}
 	for _, b := range s.breaks {
-		if b.Kind == "stall" {
+		if b.Kind == "stall" || b.Kind == "slow" {
 			// a small receive window, inherited by accepted connections, lets the producer's writes block early
 			lc.Control = func(network, address string, c syscall.RawConn) error {
 				return c.Control(func(fd uintptr) { syscall.SetsockoptInt(int(fd), syscall.SOL_SOCKET, syscall.SO_RCVBUF, 4096) })
@@ -222,6 +238,14 @@ func (s *c14Sink) serve(conn net.Conn) {
 			}
 			s.mu.Unlock()
 			s.notify()
+			if brk != nil && brk.Kind == "slow" {
+				// stop reading, then go on as if nothing had happened
+				time.Sleep(time.Duration(brk.StallMS) * time.Millisecond)
+				s.mu.Lock()
+				s.brkDone++
+				s.mu.Unlock()
+				brk = nil
+			}
 			if brk != nil {
 				if brk.DownMS > 0 {
 					s.mu.Lock()
@@ -402,8 +426,16 @@ func runC14(c *c14Case) (v verdict, sig string, err error) {
 		}
 	}
 
-	if len(c.Breaks) == 0 {
-		ok := sink.waitLines(len(wireMsgs), 20*time.Second)
+	onlySlow, slowMS := len(c.Breaks) > 0, 0
+	for _, b := range c.Breaks {
+		if b.Kind != "slow" {
+			onlySlow = false
+		}
+		slowMS += b.StallMS
+	}
+	if len(c.Breaks) == 0 || onlySlow {
+		// the connection never breaks: everything must arrive, exactly once and in order
+		ok := sink.waitLines(len(wireMsgs), 20*time.Second+time.Duration(slowMS)*time.Millisecond)
 		finish()
 		sink.mu.Lock()
 		stream := append([]byte{}, sink.stream...)
